@@ -77,7 +77,7 @@ EXPLANATION = ("C09_partial_interpreter: for EVERY built-in exception class of t
                "text iff the sender's switches allow); custom_gate (real class iff instantiate_custom_exceptions and the module "
                "is loaded or imported under import_custom_exceptions and holds an exception class; otherwise the generic "
                "stand-in named module.class); no_import / no_init / outcome_allowed for EVERY payload value. "
-               "C09_statement is false of the pinned code on this interpreter: C09_counterexample_group (classes whose "
+               "C09_statement is false of the code on this interpreter: C09_counterexample_group (classes whose "
                "__new__ needs arguments: BaseExceptionGroup, ExceptionGroup) — C09_partial covers all other classes. "
                "Oracle notes: compares data attributes only (extras such as `add_note` ignored); a bare StopIteration is "
                "not required to carry a traceback.")
@@ -680,7 +680,7 @@ def known_probes(ctx):
             if res and res[1] == KNOWN_SIG:
                 hits.append("%s/%s" % (name, mode))
     text = ("signature=%s a remote exception whose class needs arguments in __new__ (%s on this interpreter) does not "
-            "surface as that class: cls.__new__(cls) in vinegar.load raises TypeError, and the requester gets that TypeError "
-            "(raised out of its serve(), or delivered as the request's outcome) instead of the remote exception "
-            "[reproduced: %s]" % (KNOWN_SIG, ", ".join(needing), ", ".join(hits) or "none"))
+            "surface as that class: the requester receives TypeError instead (cls.__new__(cls) fails in vinegar.load; "
+            "_dispatch delivers that failure to the request) [reproduced: %s]"
+            % (KNOWN_SIG, ", ".join(needing), ", ".join(hits) or "none"))
     return [(KNOWN_SIG, bool(hits), text)]
